@@ -25,6 +25,11 @@ What is EXPLORED, not proved (ctx.explored)
   * click (option parsing, IntRange, FLOAT, Path), Python's float()/int()/ast.literal_eval/re, the OS and the file
     system are OUTSIDE the model: they appear as tokens computed by the harness with the same stdlib functions.
   * incompatible model combinations (exceptions inside the simulation) are outside the property and not generated.
+  * "CLI outputs merge back losslessly" is NOT covered by CLI == API (cli.merge delegates to app.merge, the two agree
+    on anything): part (f) merges files written by real `qecsim run` / `run-ftp` invocations (several model
+    combinations x several probabilities, repeated / non-adjacent groups, closure) and judges the output against the
+    per-group sums computed by the harness from the input records (qv.props.c05.judge) and against Model/Merge.lean
+    (the `c05 merge` driver op; Props/C05.lean holds the theorems about that model).
   * the model's `log=1` is "an ERROR record is handed to the qecsim.cli logger"; whether that record REACHES the user is
     decided by Python's logging state, which the documented `logging_qecsim.ini` feature and the call history
     (loggers created at import, init_logging run at every CLI entry, a host's own logging set-up) change: part (e)
@@ -83,7 +88,15 @@ RULE = ('(a) every name registered in the installed entry points (run: codes, er
         'every compatible registered (code, error model, decoder) combination, fixed seed, plus real subprocesses; '
         '(e) failing writes in real processes under every class of user logging configuration (logging_qecsim.ini: '
         'location x content x failing target x command) and call history (CLI entered once / twice in one interpreter, '
-        'after API use, inside a host with its own logging): the recovered-data record must reach the configured sink. '
+        'after API use, inside a host with its own logging): the recovered-data record must reach the configured sink; '
+        '(f) `qecsim merge` (in-process / real process, stdout / -o, a file through /dev/stdin) of files written by real '
+        '`qecsim run` / `run-ftp` invocations: 1-4 registered model combinations x 1-3 probabilities (in several '
+        'spellings) per session, different seeds and run counts, so that one merge sees several distinct groups whose '
+        'n_logical_commutations / custom_totals differ in value, length and presence, groups repeated non-adjacently '
+        'across files, the same file twice, earlier merge outputs fed back; the merged output is judged against an '
+        'oracle independent of app.merge: per-group sums of every scalar and array field computed by the harness from '
+        'the input records (qv.props.c05.judge) and the Lean merge model (`c05 merge` op), and every CLI-vs-app.merge '
+        'round trip of (c) / (d) goes through the same judge. '
         'non-trivial = a spec with an argument list or a malformed spec; a command line with an invalid parameter, '
         'a non-stdout target or more than one probability')
 
@@ -1419,7 +1432,8 @@ def run_merge_roundtrip(tmp, tag, datas):
         for k in ('n_run', 'n_success', 'n_fail', 'error_weight_total'):
             if sum(r[k] for r in got) != sum(r[k] for dd in datas for r in dd):
                 return 'merge of CLI outputs does not conserve ' + k
-        return None
+        # ... group by group, arrays included, judged independently of app.merge (see part (f))
+        return merge_oracle_judge(json.loads(json.dumps(datas)), got)
     finally:
         shutil.rmtree(d, ignore_errors=True)
 
@@ -1635,6 +1649,256 @@ def part_d(ctx, tmp):
             ok = False
         if not ok:
             fail('subprocess merge of CLI outputs differs from app.merge', 'merge', 'merge-roundtrip')
+        else:
+            bad = merge_oracle_judge([a, b, a], json.loads(p.stdout))
+            if bad:
+                fail('subprocess ' + bad, 'merge', 'merge-not-lossless')
+    return n
+
+
+# ------------------------------------------ (f) `qecsim merge` of real CLI outputs against an INDEPENDENT oracle
+
+# "CLI outputs merge back losslessly" is not a CLI-vs-API statement (cli.merge delegates to app.merge: the two agree on
+# whatever app.merge answers); it is judged here against (1) the property evaluated directly on the loaded input records
+# (qv.props.c05.judge: one output group per distinct seven-field key, every summed scalar AND array field of a group
+# equal to the sum over exactly that group's input records, rates recomputed from the sums) and (2) the Lean model of
+# merge (Model/Merge.lean through the `c05 merge` driver op, incl. output order).  The inputs are files written by real
+# `qecsim run` / `qecsim run-ftp` invocations (-o FILE, or stdout saved verbatim) of several registered model
+# combinations with several probabilities each, so that one merge sees several distinct groups whose
+# n_logical_commutations / custom_totals differ in value, in length (2 / 4 logical operators) and in presence
+# (custom_totals: None / a list), repeated groups that are not adjacent in the argument order, the same file twice,
+# the same probability in different spellings, and outputs of earlier merges fed back (closure).
+
+# decoders whose runs are cheap enough for tens of runs per file
+MERGE_FAST = ('generic.naive', 'planar.mwpm', 'planar.y', 'toric.mwpm', 'rotated_toric.smwpm', 'rotated_planar.smwpm')
+P_SPELL = {'0.05': ['0.05', '5e-2', '.05', '0.050'], '0.1': ['0.1', '1e-1', '.1', '0.10'], '0.3': ['0.3', '3e-1', '0.30'],
+           '0.0': ['0.0', '0', '0e0'], '0.01': ['0.01', '1e-2'], '0.25': ['0.25', '.25', '25e-2'], '0.5': ['0.5', '.5']}
+
+
+def merge_models(rng, k, regs):
+    """k distinct registered (command, code, error model, decoder) combinations (the tables of part (c))"""
+    out = []
+    for _ in range(50):
+        if len(out) >= k:
+            break
+        cmd = rng.choice(['run', 'run', 'run-ftp'])
+        dn = rng.choice(sorted(n for n in regs[(cmd, 'dec')][0] if CODES_FOR.get(n)))
+        ems = [e for e in sorted(regs[(cmd, 'em')][0]) if e != 'generic.file' and
+               (e in SMWPM_OK or not (dn.endswith('smwpm') or cmd == 'run-ftp'))]
+        en = rng.choice(ems)
+        m = {'cmd': cmd, 'code': CODES_FOR[dn][0], 'em': en + rng.choice(EM_ARGS.get(en, [''])),
+             'dec': dn + rng.choice(DEC_ARGS.get(dn, [''])),
+             'fast': dn in MERGE_FAST and (cmd, dn) != ('run-ftp', 'rotated_planar.smwpm'),
+             'ts': rng.choice([1, 2, 3]) if cmd == 'run-ftp' else None,
+             'm': rng.choice([None, 0.0, 0.05]) if cmd == 'run-ftp' else None}
+        if not any((m['cmd'], m['code'], m['em'], m['dec'], m['ts'], m['m']) ==
+                   (x['cmd'], x['code'], x['em'], x['dec'], x['ts'], x['m']) for x in out):
+            out.append(m)
+    return out
+
+
+def _zero_wall(lists):
+    return [[dict(r, wall_time=0.0) for r in l] for l in lists]
+
+
+def merge_oracle_wire(loaded, res):
+    """(protocol line for the Lean merge model, wire form of the CLI answer): wall_time is zeroed on both sides (real
+    wall times are not dyadic: their float sum is not the rational sum; they are checked with a tolerance instead)"""
+    from qv.props import c05
+    line = 'c05 merge ' + ' '.join('|'.join(c05.rec_wire(x) for x in l) if l else '.' for l in _zero_wall(loaded))
+    if res is None:
+        return line, None
+    z = [dict(g, wall_time=0.0) for g in res]
+    return line, 'ok ' + ('|'.join(c05.group_wire(g) for g in z) if z else '.')
+
+
+def merge_oracle_judge(loaded, res, impl='cli-failed'):
+    """the property on one merge answer, independent of app.merge; returns a description or None"""
+    from qv.props import c05
+    if res is not None and not (isinstance(res, list) and all(
+            isinstance(g, dict) and set(g) >= RUN_KEYS - {'error_weight_pvar'} for g in res)):
+        return 'merged output records do not have the documented keys'
+    bad = c05.judge(_zero_wall(loaded), impl, None if res is None else [dict(g, wall_time=0.0) for g in res])
+    if bad:
+        extra = ''
+        if 'got' in bad or 'expected' in bad:
+            extra = ' (merged output has {!r}, the sum over the group\'s input records is {!r})'.format(
+                bad.get('got'), bad.get('expected'))
+        return 'merge of CLI outputs is not lossless: ' + bad['what'] + extra
+    if res is not None:
+        flat = [r for l in loaded for r in l]
+        for g in res:
+            k = c05.norm_key(g)
+            want = math.fsum(r['wall_time'] for r in flat if c05.norm_key(r) == k)
+            if not (isinstance(g['wall_time'], float) and math.isclose(g['wall_time'], want, rel_tol=1e-9, abs_tol=1e-12)):
+                return 'merge of CLI outputs is not lossless: wall_time {!r} is not the sum {!r} over the group'.format(
+                    g['wall_time'], want)
+    return None
+
+
+def merge_oracle_eval(spec, tmp):
+    """run `qecsim merge` as described by spec (files / args / out / proc / stdin); -> (problem, loaded lists, groups)"""
+    d = tempfile.mkdtemp(prefix='mo_', dir=tmp)
+    cwd = os.getcwd()
+    try:
+        for name, data in spec['files'].items():
+            with open(os.path.join(d, name), 'w') as f:
+                f.write(data if isinstance(data, str) else json.dumps(data, sort_keys=True))
+        loaded = []
+        for n in spec['args']:
+            data = spec['files'][n]
+            loaded.append(json.loads(data) if isinstance(data, str) else json.loads(json.dumps(data)))
+        args = ['/dev/stdin' if i == spec.get('stdin') else n for i, n in enumerate(spec['args'])]
+        argv = ['merge'] + (['-o', spec['out']] if spec.get('out') else []) + args
+        if spec.get('proc'):
+            piped = spec.get('stdin') is not None       # `qecsim merge a.json /dev/stdin < b.json`
+            stdin = open(os.path.join(d, spec['args'][spec['stdin']])) if piped else subprocess.DEVNULL
+            try:
+                p = subprocess.run(launcher('module') + argv, env=sub_env(), cwd=d, stdin=stdin, stdout=subprocess.PIPE,
+                                   stderr=subprocess.PIPE, text=True, timeout=300)
+            finally:
+                if piped:
+                    stdin.close()
+            code, so, tb = p.returncode, p.stdout, 'Traceback' in p.stderr
+            detail = p.stderr[-300:]
+        else:
+            os.chdir(d)
+            rec = Rec()
+            with instrument(rec):
+                res, tb, err = invoke(argv)
+            code, so, detail = res.exit_code, res.stdout, repr(res.exception)
+        if code != 0 or tb:
+            return 'merge of CLI outputs fails: exit {} {}'.format(code, detail), loaded, None
+        try:
+            if spec.get('out'):
+                if so != '':
+                    return 'merge -o FILE also writes to stdout', loaded, None
+                with open(os.path.join(d, spec['out'])) as f:
+                    groups = json.load(f)
+            else:
+                groups = json.loads(so)
+        except (ValueError, OSError) as ex:
+            return 'merged output unreadable: {!r}'.format(ex), loaded, None
+        return None, loaded, groups
+    finally:
+        os.chdir(cwd)
+        shutil.rmtree(d, ignore_errors=True)
+
+
+def merge_oracle_check(spec, tmp):
+    """-> (description of the property failure or None, loaded, groups)"""
+    from qecsim import app
+    problem, loaded, groups = merge_oracle_eval(spec, tmp)
+    if problem is None:
+        problem = merge_oracle_judge(loaded, groups)
+    if problem is None:     # and the clause of part (c): the CLI answers what the API answers
+        want = json.loads(json.dumps(app.merge(*json.loads(json.dumps(loaded))), sort_keys=True))
+        if strip_wall(groups) != strip_wall(want):
+            problem = 'qecsim merge differs from app.merge on CLI outputs'
+    if problem:
+        problem = '`qecsim {}`: {}'.format(' '.join(['merge'] + (['-o', spec['out']] if spec.get('out') else []) +
+                                                      spec['args']), problem)
+    return problem, loaded, groups
+
+
+def merge_oracle_case(ctx, spec, tmp):
+    from qv.props import c05
+    problem, loaded, groups = merge_oracle_check(spec, tmp)
+    flat = [r for l in loaded for r in l]
+    keys = [c05.norm_key(r) for r in flat]
+    line, impl = merge_oracle_wire(loaded, groups)
+    meta = {k: v for k, v in spec.items()}
+    ctx.case(line, impl if impl is not None else 'cli-failed', nontrivial=len(set(keys)) < len(keys), post=c05.post,
+             meta=meta)
+    arrays = {}
+    for r in flat:
+        arrays.setdefault(c05.norm_key(r), set()).add(json.dumps([r['n_logical_commutations'], r['custom_totals']]))
+    sums = {json.dumps([g['n_logical_commutations'], g['custom_totals']]) for g in (groups or [])}
+    ctx.count('merge-oracle-groups', min(len(set(keys)), 8))
+    ctx.count('merge-oracle-distinct-group-arrays', min(len(sums), 8))
+    ctx.count('merge-oracle-repeated-group-not-adjacent',
+              any(keys[i] in keys[i + 2:] and keys[i + 1] != keys[i] for i in range(len(keys) - 2)))
+    ctx.count('merge-oracle-shape', '{}{}{}'.format('subprocess' if spec.get('proc') else 'in-process',
+                                                    ' -o' if spec.get('out') else ' stdout',
+                                                    ' /dev/stdin' if spec.get('stdin') is not None else ''))
+    if problem:
+        ctx.monitor_fail(problem, meta, key='merge-not-lossless')
+    return groups if problem is None else None
+
+
+def part_f(ctx, tmp):
+    import random as pyrandom
+    rng = ctx.rng
+    n_sessions, n_proc = ctx.scale(36, 400), ctx.scale(3, 10)
+    regs = registries()
+    n = 0
+    for it in range(n_sessions + n_proc):
+        proc = it >= n_sessions
+        models = merge_models(rng, rng.choice([1, 2, 2, 3, 4]), regs)
+        base = rng.sample(sorted(P_SPELL), rng.randint(1, 3))
+        files, prov = {}, {}
+        d = tempfile.mkdtemp(prefix='mf_', dir=tmp)
+        cwd = os.getcwd()
+        os.chdir(d)
+        try:
+            for i in range(rng.randint(2, 5)):
+                m = rng.choice(models)
+                probs = [rng.choice(P_SPELL[p]) for p in rng.sample(base, rng.randint(1, len(base)))]
+                rc = dict(m, probs=probs, r=rng.randint(4, 40) if m['fast'] else rng.randint(2, 6),
+                          f=rng.choice([None, None, None, 3]), s=rng.randrange(10 ** 6))
+                rc.pop('fast')
+                name = 'run{}.json'.format(i)
+                via_file = rng.random() < 0.5
+                argv = diff_argv(rc, name if via_file else None)
+                rec = Rec()
+                try:
+                    with instrument(rec), core.TimeLimit(60):
+                        pyrandom.seed(19)
+                        res, tb, err = invoke(argv)
+                except core.TimeLimit.Expired:
+                    ctx.count('merge-oracle-run', 'timeout')
+                    continue
+                if res.exit_code != 0 or tb:
+                    ctx.count('merge-oracle-run', 'skipped: ' + type(res.exception).__name__)   # part (c)'s business
+                    continue
+                try:
+                    text = open(name).read() if via_file else res.stdout
+                    json.loads(text)
+                except (OSError, ValueError):
+                    ctx.count('merge-oracle-run', 'skipped: no JSON')
+                    continue
+                ctx.count('merge-oracle-run', '{} {}'.format(rc['cmd'], '-o file' if via_file else 'stdout saved'))
+                files[name] = text
+                prov[name] = argv
+        finally:
+            os.chdir(cwd)
+            shutil.rmtree(d, ignore_errors=True)
+        if not files:
+            continue
+        names = sorted(files)
+        rng.shuffle(names)
+        spec = {'kind': 'mergeoracle', 'files': files, 'made_by': prov, 'proc': proc,
+                'out': rng.choice([None, None, 'merged.json']), 'stdin': None}
+        if len(names) >= 3 and rng.random() < 0.35:     # closure: an earlier merge's output is one of the inputs
+            first = dict(spec, args=names[:2], out=rng.choice([None, 'part.json']), proc=False)
+            got = merge_oracle_case(ctx, first, tmp)
+            n += 1
+            if got is not None:
+                files = dict(files, **{'part.json': json.dumps(got, sort_keys=True)})
+                prov = dict(prov, **{'part.json': ['merge'] + names[:2]})
+                names = ['part.json'] + names[2:]
+                rng.shuffle(names)
+                spec = dict(spec, files=files, made_by=prov)
+        args = list(names)
+        if rng.random() < 0.5:      # the same file again, not next to its first occurrence when possible
+            x = rng.choice(args)
+            pos = [i for i in range(len(args) + 1) if (i == 0 or args[i - 1] != x) and (i == len(args) or args[i] != x)]
+            args.insert(rng.choice(pos or [len(args)]), x)
+        spec['args'] = args
+        if proc and it % 2 == 0 and os.path.exists('/dev/stdin'):
+            spec['stdin'] = rng.randrange(len(args))
+        merge_oracle_case(ctx, spec, tmp)
+        n += 1
     return n
 
 
@@ -2000,6 +2264,7 @@ def run(ctx):
         n_c, n_eq, n_skip, n_rt = part_c(ctx, tmp, file_em)
         n_d = part_d(ctx, tmp)
         n_e = part_e(ctx, tmp)
+        n_f = part_f(ctx, tmp)
         ctx.extra.pop('_file_em', None)
         ctx.explored = {
             'cli_equals_api_differential': {
@@ -2013,6 +2278,18 @@ def run(ctx):
                                 'rule': 'CLI outputs written to files and merged by `qecsim merge` vs app.merge; '
                                         'counts conserved; merge command over input-file situations',
                                 'exhaustive': False},
+            'merge_of_cli_outputs_vs_independent_oracle': {
+                'evaluations': n_f,
+                'rule': '`qecsim merge` (in-process and real processes; stdout / -o FILE; a file argument also through '
+                        '/dev/stdin) of files written by real `qecsim run` / `qecsim run-ftp` invocations (-o FILE or '
+                        'stdout saved) of 1-4 registered model combinations x 1-3 probabilities (several spellings of '
+                        'one value) with different seeds and run counts, in shuffled argument order, with the same '
+                        'file repeated non-adjacently and with outputs of earlier merges fed back: the merged output '
+                        'is judged against the property evaluated on the loaded input records (one group per distinct '
+                        'seven-field key; n_run / n_success / n_fail / error_weight_total / wall_time and the arrays '
+                        'n_logical_commutations / custom_totals of every group equal to the sums over exactly that '
+                        'group\'s records; rates recomputed) and against the Lean model of merge (`c05 merge`, incl. '
+                        'output order), not only against app.merge', 'exhaustive': False},
             'real_subprocesses': {'evaluations': n_d,
                                   'rule': '`python -m qecsim` and the `qecsim` console script: stdout / -o new / -o '
                                           'existing / -o missing directory / malformed arguments / merge; stdout, '
@@ -2105,6 +2382,8 @@ def recheck(inp):
             return what if ok is False else None
         if kind == 'roundtrip':
             return run_merge_roundtrip(tmp, 0, inp['datas'])
+        if kind == 'mergeoracle':
+            return merge_oracle_check(inp, tmp)[0]
         if kind == 'merge':
             class C:   # minimal context collecting monitor failures
                 def __init__(self):
